@@ -47,13 +47,14 @@ Inductive pure : term -> Prop :=
 | pure_op2 o a b : o <> Define -> o <> At -> pure a -> pure b -> pure (TOp2 o a b)
 | pure_cond q a b : pure q -> pure a -> pure b -> pure (TCond q a b).
 
-(* every free name of e other than the ones bound by c is bound in the caller's stack *)
+(* every free name of e other than the ones bound by c is bound in the caller's stack (or is an unbound
+   x y z, which evaluates to itself without being bound); .f is not mentioned *)
 Inductive names_bound (c : frame) (fr : list frame) : term -> Prop :=
 | nb_int z : names_bound c fr (TInt z)
 | nb_str s : names_bound c fr (TStr s)
 | nb_chr ch : names_bound c fr (TChar ch)
 | nb_arr l : names_bound c fr (TArr l)
-| nb_sym s : (lookup s c <> None \/ ctx_lookup s fr <> None \/ is_reserved s = true) -> names_bound c fr (TSym s)
+| nb_sym s : s <> nDotF -> (lookup s c <> None \/ ctx_lookup s fr <> None \/ is_reserved s = true) -> names_bound c fr (TSym s)
 | nb_op1 o a : names_bound c fr a -> names_bound c fr (TOp1 o a)
 | nb_op2 o a b : names_bound c fr a -> names_bound c fr b -> names_bound c fr (TOp2 o a b)
 | nb_cond q a b : names_bound c fr q -> names_bound c fr a -> names_bound c fr b -> names_bound c fr (TCond q a b).
